@@ -614,6 +614,7 @@ type gxGen struct {
 	id                  int
 	groupings           []*gxGrouping
 	instancePaths       [][2]string // (module index as text, absolute path with the prefixes of that module) of container instances
+	layered             bool        // a module imports only the modules made before it: loading them in that order, every intermediate set is complete
 }
 
 type gxGrouping struct {
@@ -679,9 +680,20 @@ func (g *gxGen) mkModules() {
 	for _, m := range g.mods {
 		off := g.rng.Intn(len(pool))
 		k := 0
-		for _, o := range tops {
+		for oi, o := range tops {
 			if o == m.owner() {
 				continue
+			}
+			if g.layered {
+				mi := 0
+				for j, t := range tops {
+					if t == m.owner() {
+						mi = j
+					}
+				}
+				if oi > mi {
+					continue
+				}
 			}
 			for pool[(off+k)%len(pool)] == m.prefix {
 				k++
